@@ -42,26 +42,39 @@ TOL = 1e-9
 
 
 def flag_system(rng, system, phys):
-    """put per-cell flags on top of the species-level ones; returns the flag list (species-major)"""
+    """put per-cell flags on top of the species-level ones; returns (expected flag list, mode).  The expected list is
+    resolved INDEPENDENTLY of the code: from the description (species chstt: own environment, else "default", else 0) and
+    then the same per-cell assignments that are made on the real object"""
     n, ns = phys["n"], phys["ns"]
-    mode = rng.choice(["keep", "cells", "cells", "array", "one", "all_but_one"])
+    exp = L.default_chem_phys(phys)
+    mode = rng.choice(["keep", "keep", "cells", "cells", "array", "one", "all_but_one"])
     if mode == "cells":
         for _ in range(rng.randint(1, max(1, ns * n // 2))):
-            system.set_chemostat(rng.randrange(ns), rng.randrange(n), rng.choice([1, True, 1, 0]))
+            s_, c_, v_ = rng.randrange(ns), rng.randrange(n), rng.choice([1, True, 1, 0])
+            system.set_chemostat(s_, c_, v_)
+            exp[s_ * n + c_] = int(v_)
     elif mode == "array":
-        system.chemostats = [rng.choice([0, 0, 1]) for _ in range(ns * n)]
+        arr = [rng.choice([0, 0, 1]) for _ in range(ns * n)]
+        system.chemostats = arr
+        exp = list(arr)
     elif mode == "one":
         system.reset_chemostats()
-        system.set_chemostat(rng.randrange(ns), rng.randrange(n), 1)
+        s_, c_ = rng.randrange(ns), rng.randrange(n)
+        system.set_chemostat(s_, c_, 1)
+        exp = [0] * (ns * n)
+        exp[s_ * n + c_] = 1
     elif mode == "all_but_one":
         system.chemostats = [1] * (ns * n)
-        system.set_chemostat(rng.randrange(ns), rng.randrange(n), 0)
-    return [int(v) for v in system.chemostats], mode
+        s_, c_ = rng.randrange(ns), rng.randrange(n)
+        system.set_chemostat(s_, c_, 0)
+        exp = [1] * (ns * n)
+        exp[s_ * n + c_] = 0
+    return exp, mode
 
 
 def make_job(ctx, rng, kind, size1=False, integer_state=False):
     desc, phys, info = L.gen_system(rng, kind=kind, max_cells=1 if size1 else ctx.n(6, 16), chem_p=0.5, max_order=2 if integer_state else 4,
-                                    non_growing=integer_state)
+                                    non_growing=integer_state, min_env=(2 if (size1 and rng.random() < 0.6) else 1))
     system = L.build_system(desc)
     chem, mode = flag_system(rng, system, phys)
     us = ("µm", "s", "molecule") if integer_state else L.rand_sys(rng)
@@ -71,19 +84,23 @@ def make_job(ctx, rng, kind, size1=False, integer_state=False):
         vals, _ = L.rand_state(rng, phys, us)
     as_ua = rng.random() < 0.5
     C1.set_state(system, vals, us, as_ua)
-    return {"desc": desc, "phys": phys, "info": info, "system": system, "x_si": L.state_si(system.state), "chem": chem, "chem_mode": mode,
+    real = [int(v) for v in system.chemostats]
+    return {"desc": desc, "phys": phys, "info": info, "system": system, "x_si": L.state_si(system.state), "chem": chem, "exp_chem": chem,
+            "real_chem": real, "chem_mode": mode,
             "state": {"vals": vals, "units": list(us), "as_unitarray": as_ua}, "U": L.rand_sys(rng), "Uscript": L.rand_sys(rng),
             "dt_nat": rng.choice([Fraction(1, 64), Fraction(1, 256)]), "parallel": L.has_parallel_edges(phys)}
 
 
 def base_case(jb, kind):
-    return {"kind": kind, "desc": jb["desc"], "phys": C1.phys_dump(jb["phys"]), "state": jb["state"], "chem": jb["chem"], "U": list(jb["U"])}
+    return {"kind": kind, "desc": jb["desc"], "phys": C1.phys_dump(jb["phys"]), "state": jb["state"], "chem": jb["chem"], "chem_mode": jb["chem_mode"],
+            "U": list(jb["U"])}
 
 
 def restore(case):
     phys = C1.phys_load(case["phys"])
     system = L.build_system(case["desc"])
-    system.chemostats = list(case["chem"])
+    if case.get("chem_mode", "array") != "keep":
+        system.chemostats = list(case["chem"])      # per-cell assignments; with "keep" the map is the one the description builds
     st_ = case["state"]
     C1.set_state(system, st_["vals"], tuple(st_["units"]), st_["as_unitarray"])
     return phys, system
@@ -416,11 +433,12 @@ def source_scenarios(ctx):
 
 def run(ctx):
     rng = ctx.rng
+    C1.out_of_time(ctx)          # start the harness clock
     source_scenarios(ctx)
     nsys = ctx.n(36, 500)
     jobs = []
     for k in range(nsys):
-        if C1.out_of_time(ctx):
+        if C1.out_of_time(ctx, -5 if ctx.tier == "quick" else 0):
             ctx.notes.append("stopped generating after %d systems (time budget)" % k)
             break
         kind = "grid" if k % 2 == 0 else "graph"
@@ -470,7 +488,7 @@ def replay(ctx, rec):
     if case["kind"] == "scenario":
         return replay_scenario(case)
     phys, system = restore(case)
-    chem = [int(v) for v in system.chemostats]
+    chem = [int(v) for v in case["chem"]]        # the flags the description + per-cell assignments declare
     n, ns = phys["n"], phys["ns"]
     out = {"kind": case["kind"], "chem": chem}
     if case["kind"] == "kinetics":
